@@ -31,6 +31,11 @@ type OpenOpts struct {
 	Basic     string // "user:pass" for local auth
 	Headers   [][2]string
 	Cid       string // connection identifier to present ("" = a fresh unique one)
+	// legacy only: the RDG_OUT_DATA request comes from another client address than the RDG_IN_DATA request (the one the
+	// packets - and with them the access cookie - arrive on)
+	OutElsewhere bool
+	OutLocalIP   string
+	OutXFF       string
 }
 
 func (i *Inst) dialOpts(o OpenOpts, cid string) wsraw.DialOpts {
@@ -74,7 +79,13 @@ func (i *Inst) Open(o OpenOpts) (*TunConn, *wsraw.HTTPReply, error) {
 		}
 		return t, rep, nil
 	case "legacy":
-		out, rep, err := wsraw.DialLegacyOut(d)
+		dout := d
+		if o.OutElsewhere {
+			oo := o
+			oo.LocalIP, oo.XFF = o.OutLocalIP, o.OutXFF
+			dout = i.dialOpts(oo, cid)
+		}
+		out, rep, err := wsraw.DialLegacyOut(dout)
 		if err != nil || out == nil {
 			return nil, rep, err
 		}
